@@ -132,6 +132,35 @@ Fix_pH
 KNOBS = "KNOBS\n -convergence_tolerance 1e-12\n -iterations 300"
 
 
+def ss_with_fixed_volume_gas(case):
+    """True when some step reacts SOLID_SOLUTIONS together with a fixed-volume GAS_PHASE (defined or carried).
+    Known finding on the pinned tree (C02): with `KNOBS -iterations` > 100 the engine switches such a system to
+    numerical derivatives at iteration 100 by calling prep() in the middle of the Newton loop (model.cpp
+    calc_gas_pressures); the mass-balance totals restart from the initial composition while the solid-solution
+    components keep the moles they had reached, so mass is lost or created.  With the default limit of 100 iterations
+    the attempt fails at iteration 101 and the engine's own retry restarts cleanly."""
+    last = {}
+    for stp in case["steps"]:
+        for kd in ("ss", "gas"):
+            if kd not in stp:
+                last.pop(kd, None)
+            elif isinstance(stp[kd], dict):
+                last[kd] = stp[kd]
+        if "ss" in last and "gas" in last and last["gas"].get("fixed") == "volume":
+            return True
+    return False
+
+
+def knobs_text(case):
+    """KNOBS block of a case: convergence tolerance 1e-12 (DESIGN 4.2) and 300 iterations, except that cases prone to the
+    known finding above keep the default 100 iterations (exclusion by construction; the combination itself stays in the
+    domain).  `knobs_iterations` in the case overrides (used only by the known-finding replay)."""
+    it = case.get("knobs_iterations")
+    if it is None:
+        it = 100 if ss_with_fixed_volume_gas(case) else 300
+    return "KNOBS\n -convergence_tolerance 1e-12\n -iterations %d" % int(it)
+
+
 # ---------------------------------------------------------------------------------------------- strategies
 def _some(draw, pool, lo, hi):
     pool = list(pool)
@@ -442,10 +471,15 @@ KIN_FORMULAS = ["NaCl", "KCl", "CaCl2", "Na2SO4", "NaHCO3", "CaSO4", "MgCl2", "C
 
 
 @st.composite
-def kin(draw, db):
+def kin(draw, db, uptake_ok=("H2O",)):
+    """uptake_ok: formulas a rate with negative `save` (uptake from solution) may use - only substances every solution of
+    the case holds in excess of the largest possible uptake (1e-5 mol); removing an element that is absent from the
+    solution is unphysical input and the engine does not return from it (infinite step-halving loop, seen on the
+    unchanged tree), so it is excluded by construction."""
     nr = draw(st.integers(1, 2))
     rates = draw(st.lists(st.sampled_from(["r_first", "r_const", "r_ratio", "r_unguarded", "r_uptake"]),
                           min_size=nr, max_size=nr, unique=True))
+    top = draw(cg.logu(1.0, 1e5, 3))
     comps = []
     for r in rates:
         k = draw(st.integers(1, 2))
@@ -453,15 +487,14 @@ def kin(draw, db):
         m0 = draw(cg.logu(1e-4, 1.0, 3))
         m = m0 if draw(st.booleans()) else float("%.3g" % (m0 * draw(cg.uni(0.1, 1.0, 2))))
         if r == "r_uptake":
-            f = [[draw(st.sampled_from(["NaCl", "H2O", "KCl"])), 1.0]]
-            parm = draw(cg.logu(1e-12, 1e-9, 2))
+            f = [[draw(st.sampled_from(sorted(uptake_ok))), 1.0]]
+            parm = min(draw(cg.logu(1e-12, 1e-9, 2)), 1e-5 / top)
         elif r == "r_first":
             parm = draw(cg.logu(1e-8, 1e-3, 2))
         else:
             parm = draw(cg.logu(1e-10, 1e-5, 2)) * (100.0 if draw(st.integers(0, 4)) == 0 else 1.0)
         comps.append({"rate": r, "formula": f, "m0": m0, "m": m, "parm": float("%.3g" % parm)})
     d = {"comps": comps, "cvode": draw(st.booleans())}
-    top = draw(cg.logu(1.0, 1e5, 3))
     if draw(st.booleans()):
         k = draw(st.integers(1, 3))
         d["times"] = [float("%.3g" % (top * (i + 1) / k)) for i in range(k)]
@@ -521,6 +554,12 @@ def case_strategy(draw, profile="c02", dbs=("phreeqc.dat",)):
     sols = [draw(solution(db, i + 1, profile)) for i in range(ns)]
     has_fe = any(e == "Fe" for s in sols for e, _ in s["comps"])
     balanced = all(s["balance"] != "none" for s in sols)
+    # substances that every initial solution holds with >= 1e-3 mol (uptake by a kinetic reactant stays <= 1e-5 mol)
+    uptake_ok = ["H2O"]
+    for salt, cat in (("NaCl", "Na"), ("KCl", "K")):
+        if all(any(e == cat and c * s["water"] >= 1e-3 for e, c in s["comps"]) and
+               any(e == "Cl" and c * s["water"] >= 1e-3 for e, c in s["comps"]) for s in sols):
+            uptake_ok.append(salt)
     nsteps = draw(st.sampled_from([1, 1, 2, 2, 3, 4] if profile == "c02" else [1, 1, 1, 2]))
     steps = []
     prev_kinds = set()
@@ -578,7 +617,7 @@ def case_strategy(draw, profile="c02", dbs=("phreeqc.dat",)):
             elif kd == "ss":
                 stp[kd] = draw(ss(db, profile))
             elif kd == "kin":
-                stp[kd] = draw(kin(db))
+                stp[kd] = draw(kin(db, uptake_ok))
         if draw(st.integers(0, 7)) == 0:
             stp["temps"] = [draw(cg.uni(5.0, 80.0, 3)) for _ in range(draw(st.integers(1, 3)))]
         prev_kinds = {kd for kd in KINDS if kd in stp and kd != "reaction"}
@@ -591,7 +630,7 @@ def plan(case, punch=None):
     """punch: optional callable(step_index, step_dict, info) -> text (SELECTED_OUTPUT/USER_PUNCH block) added to the run
     simulation of every step"""
     db = case["db"]
-    sim0 = [KNOBS, RATES_TEXT.rstrip(), EXTRA_PHASES.rstrip()]
+    sim0 = [knobs_text(case), RATES_TEXT.rstrip(), EXTRA_PHASES.rstrip()]
     for s in case["sols"]:
         sim0.append(render_solution(s))
     sim0.append("END")
